@@ -65,3 +65,42 @@ From UDS Require Import Gen.Fn_Filesize Proofs.Tie_filesize Model.Svc_File.
 Theorem C01_code_filesize_width : forall u c w, fn_filesize_width u c w = (f <- mk_filesize u c w ;; ret (fs_width f)).
 Proof. exact tie_filesize_width. Qed.
 Print Assumptions C01_code_filesize_width.
+
+(* ---- the code is the model (regenerated each run): the request each of these client methods hands to send_request, obtained by
+   executing the method on symbolic arguments (tools/symtrans.py, Gen/Fn_SimpleReq.v), is the model's builder: same refusals before
+   anything is sent, same bytes ---- *)
+From UDS Require Import Gen.Fn_SimpleReq Model.Svc_Simple Proofs.Tie_simple_common Proofs.Tie_simple_req.
+
+Theorem C01_code_ecu_reset_request : forall t, fn_ecu_reset_request t = payload_of (er_make t).
+Proof. exact tie_ecu_reset_request. Qed.
+Print Assumptions C01_code_ecu_reset_request.
+Theorem C01_code_routine_control_request : forall rid ct data, fn_routine_control_request rid ct data = payload_of (rc_make rid ct data).
+Proof. exact tie_routine_control_request. Qed.
+Print Assumptions C01_code_routine_control_request.
+Theorem C01_code_tester_present_request : fn_tester_present_request  = payload_of (mk_req "TesterPresent" (Some 0) None).
+Proof. exact tie_tester_present_request. Qed.
+Print Assumptions C01_code_tester_present_request.
+Theorem C01_code_change_session_request : forall sn, fn_change_session_request sn = payload_of (dsc_make sn).
+Proof. exact tie_change_session_request. Qed.
+Print Assumptions C01_code_change_session_request.
+Theorem C01_code_change_session_2006_request : forall sn, fn_change_session_2006_request sn = payload_of (dsc_make sn).
+Proof. exact tie_change_session_2006_request. Qed.
+Print Assumptions C01_code_change_session_2006_request.
+Theorem C01_code_request_seed_request : forall level data, fn_request_seed_request level data = payload_of (sa_make false level data).
+Proof. exact tie_request_seed_request. Qed.
+Print Assumptions C01_code_request_seed_request.
+Theorem C01_code_send_key_request : forall level key, fn_send_key_request level key = payload_of (sa_make true level key).
+Proof. exact tie_send_key_request. Qed.
+Print Assumptions C01_code_send_key_request.
+Theorem C01_code_access_timing_parameter_request : forall a rc, fn_access_timing_parameter_request a rc = payload_of (atp_make a rc).
+Proof. exact tie_access_timing_parameter_request. Qed.
+Print Assumptions C01_code_access_timing_parameter_request.
+Theorem C01_code_transfer_data_request : forall sq data, fn_transfer_data_request sq data = payload_of (td_make sq data).
+Proof. exact tie_transfer_data_request. Qed.
+Print Assumptions C01_code_transfer_data_request.
+Theorem C01_code_control_dtc_setting_request : forall t data, fn_control_dtc_setting_request t data = payload_of (cds_make t data).
+Proof. exact tie_control_dtc_setting_request. Qed.
+Print Assumptions C01_code_control_dtc_setting_request.
+Theorem C01_code_clear_dtc_request : forall cfg g m, std cfg = 2020 -> fn_clear_dtc_request g m = payload_of (cdi_make cfg g m).
+Proof. exact tie_clear_dtc_request. Qed.
+Print Assumptions C01_code_clear_dtc_request.
